@@ -173,6 +173,26 @@ func RunCheck(prop string, opt CheckOptions) *CheckResult {
 	var famErr error
 	familyDir := ""
 	var e *Engine
+	if pc.Family == "validator" {
+		scratch, terr := os.MkdirTemp("", "govc-family-")
+		if terr != nil {
+			return engineError("%v", terr)
+		}
+		defer os.RemoveAll(scratch)
+		vfam := ValidatorFamily()
+		mod, gerr := GenerateValidatorFamily(opt.RepoDir, vfam, scratch)
+		if gerr != nil {
+			famErr = gerr
+		} else {
+			familyDir = mod
+			cfg.ModDir = mod
+			for _, q := range vfam {
+				cfg.Extra = append(cfg.Extra, ExtraPkg{Dir: filepath.Join(mod, q.ID), Pattern: "./" + q.ID})
+				b, _ := json.Marshal(q.Fields)
+				family = append(family, RouteSet{ID: q.ID, Templates: []RouteTemplate{{Path: "object schema T: " + string(b)}}})
+			}
+		}
+	}
 	if pc.Family == "security" {
 		scratch, terr := os.MkdirTemp("", "govc-family-")
 		if terr != nil {
